@@ -431,7 +431,15 @@ def check_C12(tier, seed):
         return "C12" if prop in ("C01", "C02", "C04", "C06", "C07", "C17", "C19", "C08") else prop + "@base"
 
     s = _summary("prec", tier, seed, prec_population, _prec_variants, owner)
-    rep_extra = {}
+    # annotated nonterminals whose recursive occurrences sit inside macro arguments, groups (Macro.tla's Tiered)
+    s2 = _summary("precmac", tier, seed, precmac_population, _prec_variants, owner)
+    s = dict(s)
+    s["rejected"] = list(s["rejected"]) + list(s2["rejected"])
+    s["disagreements"] = list(s["disagreements"]) + list(s2["disagreements"])
+    s["stats"] = dict(s["stats"], C01=s["stats"]["C01"] + s2["stats"]["C01"])
+    for k in ("states", "generated", "grammars_lr1", "modules", "records", "rejected_by_lalrpop"):
+        s[k] = s[k] + s2[k]
+    rep_extra = {"sugared_operator_variants": s2["grammars_lr1"], "sugared_operator_parses": s2["stats"]["C01"]}
     # the tiered grammar is LR(1) (spec) but LALRPOP rejects the annotated one: the expansions differ
     viol = []
     for m, msg in s["rejected"]:
@@ -444,7 +452,8 @@ def check_C12(tier, seed):
                    "arbitrary level numbers, interleaved order, inherited levels and associativities; Prec.tla builds the "
                    "documented tiered grammar, Sem.tla evaluates every operator/operand sequence up to the bound (only LR(1) tiered "
                    "grammars are compared); the parser LALRPOP generates from the annotated grammar must accept the same "
-                   "sequences with the same trees", extra=rep_extra)
+                   "sequences with the same trees; a second population annotates a nonterminal whose recursive occurrences "
+                   "also sit inside macro arguments, nested macro uses and groups (tiers by Macro.tla's Tiered)", extra=rep_extra)
 
 
 # --------------------------------------------------------------------------
@@ -458,6 +467,18 @@ def macro_population(tier, seed):
     for i in range(n):
         sg = sugar.macro_grammar(rng, i)
         sg["bound"] = (4, 5)
+        out.append(sg)
+    return out
+
+
+def precmac_population(tier, seed):
+    import sugar
+    rng = random.Random(seed * 23 + 7703)
+    n = 40 if tier == "quick" else 300
+    out = []
+    for i in range(n):
+        sg = sugar.precmac_grammar(rng, i)
+        sg["bound"] = (5, 6)
         out.append(sg)
     return out
 
